@@ -296,9 +296,15 @@ theorem C18_purged_temp_dropped (s : State) (p i : Nat) (hgone : s.tmps.contains
     (hpc : (s.procs p).pc = .sUtime i ∨ (s.procs p).pc = .sRename i) :
     let s' := run s [.step p, .step p]
     (s'.procs p).pc = .done none ∧ s'.entry = s.entry ∧ s'.tmps = s.tmps := by
-  rcases hpc with hpc | hpc <;>
-    simp [run, step, stepProc, hpc, hgone, State.setPc, utimeCatchesENOENT, moveCatchesENOENT,
-      unlinkCatchesENOENT]
+  have h1 : step s (.step p) = s.setPc p (.sUnlinkTmp i) := by
+    rcases hpc with hpc | hpc <;>
+      simp only [step, stepProc, hpc, hgone, utimeCatchesENOENT, moveCatchesENOENT, if_true, Bool.false_eq_true,
+        if_false]
+  simp only [run, List.foldl_cons, List.foldl_nil, h1]
+  have h2 : ((s.setPc p (.sUnlinkTmp i)).procs p).pc = .sUnlinkTmp i := by simp [State.setPc]
+  have h3 : (s.setPc p (.sUnlinkTmp i)).tmps.contains i = false := hgone
+  simp only [step, stepProc, h2, h3, unlinkCatchesENOENT, if_true, Bool.false_eq_true, if_false]
+  simp [State.setPc]
 
 /-- An unreadable / truncated entry is discarded instead of raising: a load that reads a
     torn pickle goes on to unlink the entry name and returns nothing. -/
